@@ -1777,7 +1777,7 @@ def _map_blocks_kwarg_da(p, a, b):
     if p["how"] == "delayed":
         import dask
 
-        off = dask.delayed(lambda v: v)(off)
+        off = dask.delayed(K.k_ident, pure=True)(off)  # pure: a deterministic key (an impure Delayed is named at random)
     dt = (np.zeros(1, a.dtype) + np.zeros(1, b.dtype).sum()).dtype  # what NumPy gives for a + b.sum()
     return da().map_blocks(K.k_add_offset, a, offset=off, dtype=dt)
 
